@@ -205,3 +205,5 @@ def run(ck):
         "number of live worker threads: they are kept (stopped) when the thread count is unchanged"
     reinit.check_init_consistency(ck, prog, "C08-INITCONS", files={FILE})
     ck.floor("C08-INITCONS", 6)
+    from . import C10
+    C10.check_sizekey(ck, prog, rule="C08-SIZEKEY", files={FILE}, floor=1)
